@@ -21,7 +21,7 @@ def run(pid, tier, configs, explanation, extra_jobs=()):
     for c in configs:
         scn, p = (c if isinstance(c, tuple) else (S, c))
         jobs.append((run_b_job, ({'property': pid, 'scenario': scn, 'params': p, 'known': known},
-                                 2400 if tier == 'thorough' else 1500)))
+                                 1800 if tier == 'thorough' else 1500)))
     jobs += list(extra_jobs)
     results = run_jobs(jobs)
     for r in results:
